@@ -242,13 +242,13 @@ Qed.
 Lemma list_eqb_Z_refl l : list_eqb Z.eqb l l = true.
 Proof. apply list_eqb_refl. apply Z.eqb_refl. Qed.
 
-Lemma c19_waits_model cfg op s outprev :
-  c19_waits op (mk_opobs s outprev) (mk_opobs (fst (rstep cfg s op)) (snd (rstep cfg s op))) = [].
+Lemma c19_waits_core_model cfg op s outprev :
+  c19_waits_core op (mk_opobs s outprev) (mk_opobs (fst (rstep cfg s op)) (snd (rstep cfg s op))) = [].
 Proof.
   destruct (is_reccrash op) eqn:Ec.
-  - destruct op; try discriminate. unfold c19_waits. cbn [rstep mk_opobs b_emits b_waits].
+  - destruct op; try discriminate. unfold c19_waits_core. cbn [rstep mk_opobs b_emits b_waits].
     destruct (rec_crash_out cfg s p) as [He [Hw|Hw]]; rewrite He, Hw; reflexivity.
-  - assert (Hsame : c19_waits op (mk_opobs s outprev) (mk_opobs (fst (rstep cfg s op)) (snd (rstep cfg s op))) =
+  - assert (Hsame : c19_waits_core op (mk_opobs s outprev) (mk_opobs (fst (rstep cfg s op)) (snd (rstep cfg s op))) =
       (let a := mk_opobs (fst (rstep cfg s op)) (snd (rstep cfg s op)) in
        let n := length (rec_emits (b_emits a)) in
        if list_eqb Z.eqb (b_waits a) (zrange 0 n)
@@ -261,6 +261,23 @@ Proof.
       replace (match op with MainRec _ _ => 1%nat | _ => length (o_emits (snd (rstep cfg s op))) end)
         with (length (o_emits (snd (rstep cfg s op)))) by (destruct op; try reflexivity; discriminate).
       rewrite Nat.eqb_refl. reflexivity.
+Qed.
+
+Lemma zrange_nonneg : forall n a, 0 <= a -> existsb (fun w => w <? 0) (zrange a n) = false.
+Proof. induction n as [|n IH]; intros a Ha; cbn [zrange existsb]; [reflexivity|]. rewrite IH by lia. lia. Qed.
+
+Lemma model_waits_nonneg cfg s op : existsb (fun w => w <? 0) (o_waits (snd (rstep cfg s op))) = false.
+Proof.
+  destruct (is_reccrash op) eqn:Ec.
+  - destruct op; try discriminate. cbn [rstep]. destruct (rec_crash_out cfg s p) as [_ [Hw|Hw]]; rewrite Hw; reflexivity.
+  - destruct (is_main op) eqn:Em; [destruct op; try discriminate; reflexivity|].
+    rewrite (proj2 (rstep_flags_waits cfg s op Em Ec)). apply zrange_nonneg. lia.
+Qed.
+
+Lemma c19_waits_model cfg op s outprev :
+  c19_waits op (mk_opobs s outprev) (mk_opobs (fst (rstep cfg s op)) (snd (rstep cfg s op))) = [].
+Proof.
+  unfold c19_waits. cbn [b_waits mk_opobs]. rewrite model_waits_nonneg. apply c19_waits_core_model.
 Qed.
 
 Lemma dedup_fail_nil : dedup_fail [] = []. Proof. reflexivity. Qed.
